@@ -58,11 +58,11 @@ func GoKeyTypes(m GoMode) []string {
 	return []string{"string", "int32", "int64"}
 }
 
-// GoGen narrows generator options to what a mode can hold: leaf and key types, composite keys only where lists are typed slices,
+// GoGen narrows generator options to what a mode can hold: leaf and key types (composite keys everywhere: a list the library creates for them is a slice),
 // no union-typed leaves where a leaf is a struct field of one Go type.
 func GoGen(o *GenOpts, m GoMode) {
 	o.Types, o.KeyTypes = GoTypes(m), GoKeyTypes(m)
-	o.CompoundKeys = m.Shape == "struct"
+	o.CompoundKeys = true
 	o.NoUnionWrap = m.Shape == "struct"
 }
 
@@ -133,9 +133,6 @@ func GoSupports(s *Schema, m GoMode) string {
 					why = fmt.Sprintf("%s/%s: type %s", path, c.Name, c.Type.Base)
 				}
 			case Container, List:
-				if c.Kind == List && m.Shape == "map" && len(c.Keys) != 1 {
-					why = fmt.Sprintf("%s/%s: keyed Go maps hold single-key lists only", path, c.Name)
-				}
 				visit(c.Children, path+"/"+c.Name)
 			}
 		}
